@@ -61,7 +61,9 @@ def compare_case(eh, vh: Vh, regs, mem, n: int = 1, hidden=None, addr_only: bool
         memdiff = [[a_, 1, 0] for a_ in sorted(wp - wr)] + [[a_, 0, 1] for a_ in sorted(wr - wp)]
     rec.update({"py": {"regs": a["regs"], "len": a["len"], "err": 1 if a["err"] else 0, "pw": _norm_power(a["power"])},
                 "rs": {"regs": b["regs"], "len": b["len"], "err": 1 if b["err"] else 0, "pw": _norm_power(b["power"])},
-                "memdiff": memdiff[:8], "nwrites": len(addrs), "py_err": a["err"] or "", "rs_err": b["err"] or ""})
+                "memdiff": memdiff[:8], "nwrites": len(addrs), "py_err": a["err"] or "", "rs_err": b["err"] or "",
+                # did the instruction store into one of the addressing pointer cells BP / PX / PY of the internal memory?
+                "ptrwrite": int(any(x in (0x1000EC, 0x1000ED, 0x1000EE) for x in addrs))})
     return rec
 
 
@@ -125,6 +127,8 @@ def _shape(clause: str, rec) -> str:
     mode = f":m{b[k + 1] >> 4:X}" if op in (0xE3, 0xEB) else ""          # register-indirect block moves: which addressing form
     if op in (0x10, 0xC0, 0xC1, 0xC2, 0xDB):
         mode = ":pre" if k == 1 else ":nopre"                              # (the recorded finding concerns the prefixed forms only)
+    if op in (0xC0, 0xC1, 0xC2) and rec.get("ptrwrite"):
+        mode += ":ptrwrite"          # an exchange that overwrites BP / PX / PY while the other operand is addressed through them
     return f"op{op:02X}" + mode + (":absbits" if _abs_hi(b, k, op) else "") + (":fhigh" if rec.get("seed", 0) < 0 else "") + (":block" if rec.get("seed", 0) >= BLOCK else "")
 
 
